@@ -70,7 +70,7 @@ def run(R, cfg, over=None):
         def pred(s_np, ts_np, n=n):
             vals = dict(reset_mask(H, S.conc_tree(s_np), S.conc_tree(ts_np)))
             return bool(vals[n]), {"config": H.cfg, "obligation": n}
-        R.prove(n, list(ctx.assumptions), v.term() if not v.conc else bool(v), replay=C.reset_key_search(H.env, pred, 256))
+        R.prove(n, list(ctx.assumptions), v.term() if not v.conc else bool(v), replay=C.reset_replayer(H.env.reset, ctx, key, lambda out, pred=pred: pred(out[0], out[1]), 256))
 
 
 def D_guard(f, st, act, ns, ts):
